@@ -36,6 +36,9 @@ ASSUMPTIONS = [
     "istream_get_line is a bounded stand-in: all texts up to the stated length over the full byte alphabet "
     "except NUL, every chunking, compared with the chunk-free spec spec/getline_spec.h; its heap block is a "
     "fixed pool (realloc never moves it)",
+    "read_at_bmc / write_at_bmc are bounded twins (plain BMC, n <= 64, <= 4 system calls) of read_at / write_at: "
+    "same obligations without loop contracts, so a change that reshapes the retry loop (annotation no longer "
+    "applicable, unbounded proof undecided) is still checked; never counted as proved",
     "fsync interrupted by EINTR is reported as an I/O error by file_flush (not part of the property: only "
     "read/write/pread/pwrite are named)",
     "not covered here: lib/sqfs/src/io/unix.c (open/seek wrappers, loop-free), lib/common/src/stream.c, "
